@@ -37,16 +37,21 @@ impl BytesRegexBuilder {
     #[verifier::external_body]
     pub fn unicode(self, yes: bool) -> (r: Self) ensures r.pat@ == self.pat@, r.unicode@ == yes { unimplemented!() }
     #[verifier::external_body]
-    pub fn build(self) -> (r: Result<BytesRegex, regex::Error>) ensures r is Ok ==> r->Ok_0.pat@ == self.pat@ && r->Ok_0.unicode@ == self.unicode@ { unimplemented!() }
+    pub fn build(self) -> (r: Result<BytesRegex, regex::Error>)
+        ensures r is Ok <==> builds(self.pat@, self.unicode@), r is Ok ==> r->Ok_0.pat@ == self.pat@ && r->Ok_0.unicode@ == self.unicode@
+    { unimplemented!() }
 }
+// T (regex crate): whether a pattern text compiles is a function of the text and the flags
+pub uninterp spec fn builds(pat: Seq<char>, unicode: bool) -> bool;
+pub uninterp spec fn builds_set(pats: Seq<Seq<char>>, unicode: bool) -> bool;
 // T (regex crate): the plain constructors use the default flags (Unicode mode on)
 impl BytesRegex {
     #[verifier::external_body]
-    pub fn new(pattern: &str) -> (r: Result<BytesRegex, regex::Error>) ensures r is Ok ==> r->Ok_0.pat@ == pattern@ && r->Ok_0.unicode@ { unimplemented!() }
+    pub fn new(pattern: &str) -> (r: Result<BytesRegex, regex::Error>) ensures r is Ok <==> builds(pattern@, true), r is Ok ==> r->Ok_0.pat@ == pattern@ && r->Ok_0.unicode@ { unimplemented!() }
 }
 impl BytesRegexSet {
     #[verifier::external_body]
-    pub fn new(patterns: Vec<String>) -> (r: Result<BytesRegexSet, regex::Error>) ensures r is Ok ==> r->Ok_0.pats@ == views(patterns@) && r->Ok_0.unicode@ { unimplemented!() }
+    pub fn new(patterns: Vec<String>) -> (r: Result<BytesRegexSet, regex::Error>) ensures r is Ok <==> builds_set(views(patterns@), true), r is Ok ==> r->Ok_0.pats@ == views(patterns@) && r->Ok_0.unicode@ { unimplemented!() }
 }
 pub struct BytesRegexSetBuilder { pub pats: Ghost<Seq<Seq<char>>>, pub unicode: Ghost<bool> }
 pub open spec fn views(v: Seq<String>) -> Seq<Seq<char>> { v.map_values(|s: String| s@) }
@@ -56,7 +61,9 @@ impl BytesRegexSetBuilder {
     #[verifier::external_body]
     pub fn unicode(self, yes: bool) -> (r: Self) ensures r.pats@ == self.pats@, r.unicode@ == yes { unimplemented!() }
     #[verifier::external_body]
-    pub fn build(self) -> (r: Result<BytesRegexSet, regex::Error>) ensures r is Ok ==> r->Ok_0.pats@ == self.pats@ && r->Ok_0.unicode@ == self.unicode@ { unimplemented!() }
+    pub fn build(self) -> (r: Result<BytesRegexSet, regex::Error>)
+        ensures r is Ok <==> builds_set(self.pats@, self.unicode@), r is Ok ==> r->Ok_0.pats@ == self.pats@ && r->Ok_0.unicode@ == self.unicode@
+    { unimplemented!() }
 }
 
 //@EXTRACT src/regex_manager.rs :: enum CompiledRegex
@@ -116,6 +123,23 @@ pub open spec fn complete_shape(f: &str) -> bool {
     f.spec_bytes().len() >= 2 && f.spec_bytes()[0] == 47u8 && f.spec_bytes()[f.spec_bytes().len() - 1] == 47u8
 }
 
+// what a compiled regex is, as far as matching goes
+pub enum Shape { MatchAll, One(Seq<char>, bool), Set(Seq<Seq<char>>, bool), Error }
+pub open spec fn shape(r: CompiledRegex) -> Shape {
+    match r {
+        CompiledRegex::MatchAll => Shape::MatchAll,
+        CompiledRegex::Compiled(x) => Shape::One(x.pat@, x.unicode@),
+        CompiledRegex::CompiledSet(x) => Shape::Set(x.pats@, x.unicode@),
+        CompiledRegex::RegexParsingError(_) => Shape::Error,
+    }
+}
+// the regex a rule's patterns and flags denote (a function of them: compiling twice gives the same thing)
+pub open spec fn compile_shape(fs: Seq<&str>, right: bool, left: bool, complete: bool) -> Shape {
+    if some_empty(fs) || fs.len() == 0 { Shape::MatchAll }
+    else if fs.len() == 1 { if builds(pattern_of(fs[0], right, left, complete), false) { Shape::One(pattern_of(fs[0], right, left, complete), false) } else { Shape::Error } }
+    else { if builds_set(patterns_of(fs, right, left, complete), false) { Shape::Set(patterns_of(fs, right, left, complete), false) } else { Shape::Error } }
+}
+
 //@EXTRACT src/regex_manager.rs :: fn compile_regex
 //@ RET r
 //@ SAFETY C02.regex.compile.safety
@@ -133,6 +157,8 @@ pub open spec fn complete_shape(f: &str) -> bool {
         // several patterns (a fused rule): the set of exactly their translations, in order
         !some_empty(filters.remaining()) && filters.remaining().len() >= 2 ==> (r is RegexParsingError
             || (r is CompiledSet && r->CompiledSet_0.pats@ == patterns_of(filters.remaining(), is_right_anchor, is_left_anchor, is_complete_regex) && !r->CompiledSet_0.unicode@)), // OBL C02.regex.compile.set
+        // the same, as a function of the inputs (C06: a recompiled regex is the regex that was discarded)
+        shape(r) == compile_shape(filters.remaining(), is_right_anchor, is_left_anchor, is_complete_regex), // OBL C02.regex.compile.function_of_inputs
 //@ ENDSPEC
 //@ SUBST R9
     use once_cell::sync::Lazy;
@@ -252,8 +278,107 @@ pub open spec fn complete_shape(f: &str) -> bool {
         !some_empty(filters.remaining()) && filters.remaining().len() >= 2 ==> (r is RegexParsingError
             || (r is CompiledSet && !r->CompiledSet_0.unicode@ && r->CompiledSet_0.pats@ == patterns_of(filters.remaining(),
                     mask.has(NetworkFilterMask::IS_RIGHT_ANCHOR), mask.has(NetworkFilterMask::IS_LEFT_ANCHOR), mask.has(NetworkFilterMask::IS_COMPLETE_REGEX)))), // OBL C02.regex.make.set
+        shape(r) == compile_shape(filters.remaining(), mask.has(NetworkFilterMask::IS_RIGHT_ANCHOR), mask.has(NetworkFilterMask::IS_LEFT_ANCHOR), mask.has(NetworkFilterMask::IS_COMPLETE_REGEX)), // OBL C02.regex.make.function_of_inputs
 //@ ENDSPEC
 //@END
+
+// ---- C06: the regex cache (RegexManager::matches) -----------------------------------------------------------------------
+// T (regex crate): whether a compiled regex finds a match is a function of what it was compiled from and of the text
+pub uninterp spec fn re_match(pat: Seq<char>, unicode: bool, text: Seq<u8>) -> bool;
+pub uninterp spec fn re_set_match(pats: Seq<Seq<char>>, unicode: bool, text: Seq<u8>) -> bool;
+impl BytesRegex {
+    #[verifier::external_body]
+    pub fn is_match(&self, text: &[u8]) -> (r: bool) ensures r == re_match(self.pat@, self.unicode@, text@) { unimplemented!() }
+}
+impl BytesRegexSet {
+    #[verifier::external_body]
+    pub fn is_match(&self, text: &[u8]) -> (r: bool) ensures r == re_set_match(self.pats@, self.unicode@, text@) { unimplemented!() }
+}
+pub open spec fn shape_match(s: Shape, text: Seq<u8>) -> bool {
+    match s { Shape::MatchAll => true, Shape::Error => false, Shape::One(p, u) => re_match(p, u, text), Shape::Set(ps, u) => re_set_match(ps, u, text) }
+}
+impl CompiledRegex {
+//@EXTRACT src/regex_manager.rs :: impl CompiledRegex :: fn is_match
+//@ RET r
+//@ SAFETY C06.cache.is_match.safety
+//@ SPEC
+        ensures r == shape_match(shape(*self), pattern.spec_bytes()), // OBL C06.cache.is_match
+//@ ENDSPEC
+//@END
+}
+
+#[derive(Clone, Copy)]
+pub struct Instant { pub t: u64 }
+//@EXTRACT src/regex_manager.rs :: struct RegexEntry
+//@ PUB
+//@ PUBFIELDS
+//@END
+// the part of RegexManager the two arms of `match self.map.entry(key)` touch (R7: the arms' free variables become parameters)
+pub struct RegexManagerView { pub now: Instant, pub compiled_regex_count: usize }
+// T (hash_map::VacantEntry::insert): stores the value under the key and hands it back
+pub struct VfVacant { pub x: u8 }
+impl VfVacant {
+    #[verifier::external_body]
+    pub fn insert(self, v: RegexEntry) -> (r: RegexEntry) ensures r == v { unimplemented!() }
+}
+pub open spec fn rule_shape(mask: NetworkFilterMask, fs: Seq<&str>) -> Shape {
+    compile_shape(fs, mask.has(NetworkFilterMask::IS_RIGHT_ANCHOR), mask.has(NetworkFilterMask::IS_LEFT_ANCHOR), mask.has(NetworkFilterMask::IS_COMPLETE_REGEX))
+}
+// cache invariant for the entry of this rule: a regex that is still held was compiled from this rule
+pub open spec fn entry_ok(v: RegexEntry, mask: NetworkFilterMask, fs: Seq<&str>) -> bool { v.regex is Some ==> shape(v.regex->Some_0) == rule_shape(mask, fs) }
+
+impl RegexManagerView {
+    // the Occupied arm: the key is in the map, `v` is its entry (possibly with the regex discarded by cleanup())
+    fn vf_occupied<'a, FiltersIter>(&mut self, v: &mut RegexEntry, mask: NetworkFilterMask, filters: FiltersIter, pattern: &str) -> (r: bool)
+        where FiltersIter: Iterator<Item = &'a str> + ExactSizeIterator
+        requires
+            filters.obeys_prophetic_iter_laws(),
+            mask.has(NetworkFilterMask::IS_COMPLETE_REGEX) ==> forall|i: int| 0 <= i < filters.remaining().len() ==> complete_shape(#[trigger] filters.remaining()[i]),
+            entry_ok(*old(v), mask, filters.remaining()),
+            old(v).usage_count < usize::MAX, old(self).compiled_regex_count < usize::MAX,
+        ensures
+            // "answers do not depend on history": whether the regex was cached, discarded or never built, the answer is that of the regex
+            // this rule denotes
+            r == shape_match(rule_shape(mask, filters.remaining()), pattern.spec_bytes()), // OBL C06.cache.occupied.answer
+            final(v).regex is Some && entry_ok(*final(v), mask, filters.remaining()), // OBL C06.cache.occupied.invariant
+            // a regex that is still held is not rebuilt
+            old(v).regex is Some ==> final(v).regex == old(v).regex && final(self).compiled_regex_count == old(self).compiled_regex_count, // OBL C06.cache.occupied.hit
+    {
+//@EXTRACT src/regex_manager.rs :: impl RegexManager :: fn matches
+//@ SAFETY C06.cache.occupied.safety
+//@ FROM
+                v.usage_count += 1;
+//@ ENDFROM
+//@ TO
+                return v.regex.as_ref().unwrap().is_match(pattern);
+//@ ENDTO
+//@END
+    }
+
+    // the Vacant arm: first use of this rule's regex
+    fn vf_vacant<'a, FiltersIter>(&mut self, e: VfVacant, mask: NetworkFilterMask, filters: FiltersIter, pattern: &str) -> (r: bool)
+        where FiltersIter: Iterator<Item = &'a str> + ExactSizeIterator
+        requires
+            filters.obeys_prophetic_iter_laws(),
+            mask.has(NetworkFilterMask::IS_COMPLETE_REGEX) ==> forall|i: int| 0 <= i < filters.remaining().len() ==> complete_shape(#[trigger] filters.remaining()[i]),
+            old(self).compiled_regex_count < usize::MAX,
+        ensures r == shape_match(rule_shape(mask, filters.remaining()), pattern.spec_bytes()), // OBL C06.cache.vacant.answer
+    {
+//@EXTRACT src/regex_manager.rs :: impl RegexManager :: fn matches
+//@ SAFETY C06.cache.vacant.safety
+//@ FROMAFTER
+            Entry::Vacant(e) => {
+//@ ENDFROMAFTER
+//@ TO
+                    .insert(new_entry)
+                    .regex
+                    .as_ref()
+                    .unwrap()
+                    .is_match(pattern);
+//@ ENDTO
+//@END
+    }
+}
 
 proof fn vf_canary() ensures false {}
 
